@@ -9,7 +9,7 @@ static CaseResult run_case(Tape &t)
 {
 	CaseResult r;
 	ses::Profile P;
-	P.w_ping = 6; P.w_up = 5; P.w_offer = 3; P.w_adv = 4; P.w_nreq = 1; P.w_redeliver = 5; P.w_freeze = 1; P.w_rawmix = 1;
+	P.w_ping = 6; P.w_up = 5; P.w_offer = 3; P.w_adv = 4; P.w_nreq = 1; P.w_redeliver = 5; P.w_freeze = 1; P.w_rawmix = 1; P.w_recycle = 1; P.recycle_moves = true;
 	P.max_sessions = 3; P.max_body = 600; P.c2c = true; P.wild = true; P.qr_games = true;
 	ses::Run R;
 	ses::run_sessions(t, P, R);
@@ -24,6 +24,7 @@ static CaseResult run_case(Tape &t)
 	if (R.n_dup_twice) r.cls("pending-duplicate-answered-twice");
 	if (R.wm.max_held >= 2) r.cls("two-held");
 	if (R.peers.size() > 1) r.cls("multi-session");
+	if (R.n_recycled) r.cls("slot-expired-and-reused"); if (R.n_recycled_moved) r.cls("new-session-from-another-port");
 	if (R.n_raw) r.cls("raw-mode-frames-mixed-in");
 	if (R.n_c2c) r.cls("client-to-client-packets");
 	if (!R.cfg.srv_domain.empty()) r.cls("wildcard-domain");
